@@ -10,6 +10,7 @@ Import ListNotations.
 Inductive decomp :=
 | DCp (w : option (tensor Z)) (fs : list (tensor Z)) (mask : option (tensor Z))
 | DTucker (core : tensor Z) (fs : list (tensor Z)) (skip : option nat) (tr : bool)
+| DTuckerModes (core : tensor Z) (fs : list (tensor Z)) (ms : list nat)   (* tucker_to_tensor((core, fs), modes=ms), pairwise distinct modes *)
 | DTt (cores : list (tensor Z))
 | DTr (cores : list (tensor Z))
 | DTtm (cores : list (tensor Z))
@@ -51,6 +52,7 @@ Definition run (d : decomp) (v : view) : out :=
   | DTucker c fs skip tr, VUnfolded m => rt (tucker_to_unfolded Zops c fs m skip tr)
   | DTucker c fs skip tr, VVec => rt (tucker_to_vec Zops c fs skip tr)
   | DTucker c fs _ _, VNorm => rnorm (tucker_to_tensor Zops c fs None false)
+  | DTuckerModes c fs ms, VTensor | DTuckerModes c fs ms, VEin VTensor => rt (tucker_to_tensor_modes Zops c fs ms)
   | DTt cs, VNorm => rnorm (tt_to_tensor Zops cs)
   | DTr cs, VNorm => rnorm (tr_to_tensor Zops cs)
   | DTtm cs, VNorm => rnorm (ttm_to_tensor Zops cs)
@@ -140,6 +142,7 @@ Definition obj_new (d : decomp) : res obj :=
   | DTtm cs => rbind (ch_new validate_ttm cs) (fun o => Ok (OTtm o))
   | DP2 w fs ps => rbind (p2_new Zops w fs ps) (fun o => Ok (OP2 o))
   | DP2Q _ _ _ => Err
+  | DTuckerModes _ _ _ => Err
   end.
 
 (* the call arguments (mask, skip_factor, transpose_factors) are those of the decomposition the history started from *)
